@@ -791,16 +791,20 @@ inductive Op
 
 def noOut (r : Option St) : Option (St × Out) := r.map fun s => (s, {})
 
+/-- only accounts of the world (`s.users`) act and hold position tokens -/
+def known (s : St) (c : Nat) (r : Option (St × Out)) : Option (St × Out) :=
+  if c ∈ s.users then r else none
+
 def step (s : St) : Op → Option (St × Out)
-  | .enter c o a e => enterFarm s c o a e
-  | .enterOB c u a e => enterFarmOnBehalf s c u a e
-  | .claim c o p => claimRewards s c o p
-  | .claimOB c p => claimRewardsOnBehalf s c p
-  | .compound c o p => compoundRewards s c o p
-  | .exit c o n a => exitFarm s c o n a
-  | .merge c o p => mergeFarmTokens s c o p
-  | .claimBoosted c u => claimBoostedRewards s c u
-  | .transfer a b n x => noOut (transfer s a b n x)
+  | .enter c o a e => known s c (enterFarm s c o a e)
+  | .enterOB c u a e => known s c (enterFarmOnBehalf s c u a e)
+  | .claim c o p => known s c (claimRewards s c o p)
+  | .claimOB c p => known s c (claimRewardsOnBehalf s c p)
+  | .compound c o p => known s c (compoundRewards s c o p)
+  | .exit c o n a => known s c (exitFarm s c o n a)
+  | .merge c o p => known s c (mergeFarmTokens s c o p)
+  | .claimBoosted c u => known s c (claimBoostedRewards s c u)
+  | .transfer a b n x => known s a (known s b (noOut (transfer s a b n x)))
   | .setEnergy u a l t => some ({ s with energy := upd s.energy u (some ⟨a, l, t⟩) }, {})
   | .updateEnergy u => noOut (updateEnergyForUser s u)
   | .setPerBlock c x => noOut (setPerBlock s c x)
